@@ -276,6 +276,7 @@ def signature(m, o):
     if muts:
         n = muts[0][3]
         places = foreign_mark_places(m, X) if f[0] == "read" else []
+        signature.places = places
         if places and "" not in places:
             # the served object is the table's own, something below it is not
             return "C10:mutation-leaks:%s.%s" % (f[3], places[0].split(".")[0].split("[")[0] or places[0])
@@ -342,6 +343,7 @@ for key, (prefix, oc_last) in todo:
         m = prefer_read(m, X0, viol_last)
     o = observe(m)
     explained.append((key[:3], culprit_set(m, len(m) - 1, o)))
+    signature.places = None
     sig = signature(m, o)
     if sig in seen_sig:
         continue
@@ -349,6 +351,9 @@ for key, (prefix, oc_last) in todo:
     f, before = m[-1], m[:-1]
     what = ("after [%s], `%s` %s; the property requires what the canonical order serves on the public table"
             % ("; ".join(text_event(e) for e in before), text_event(f), words(o[-1])))
+    if signature.places:
+        what += " (it carries the other table's in-place overwrite at: %s)" % ", ".join(
+            "%s.%s" % (f[3], pl) if pl else "the served object itself" for pl in signature.places)
     fails.append(dict(signature=sig, what=what, history=m, history_text=[text_event(e) for e in m], outcomes=o))
 
 print(json.dumps(dict(
